@@ -194,6 +194,37 @@ def mergeLoop {n} (asc : Bool) (B : Vector (Block V) n) (minT maxT : Int) :
           else merge v values          -- values = v.Merge(values)
       mergeLoop asc B minT maxT is (markAt rd i minT maxT) values'
 
+/-- "Use the current block time range as our overlapping window":
+    `minT, maxT := first.readMin, first.readMax; if values.Len() > 0 { minT, maxT = values.MinTime(), values.MaxTime() }` -/
+def windowInit {n} (rd : Marks n) (f : Fin n) (values : Vals V) : Int × Int :=
+  match minTime? values, maxTime? values with
+  | some lo, some hi => (lo, hi)
+  | _, _ => (rd[f].1, rd[f].2)
+
+/-- Read…Block when `current` holds more than one location: `first = f`, the others `rest`,
+    `values` = what is left of the first block.  Returns the new marks and the block. -/
+def readMulti {n} (asc : Bool) (B : Vector (Block V) n) (rd : Marks n) (f : Fin n) (rest : List (Fin n))
+    (values : Vals V) : Marks n × Vals V :=
+  let (minT, maxT) := windowInit rd f values
+  if asc then
+    let minT := growMin B rd rest minT
+    let (maxT, values) := match firstOverlap B rd rest minT maxT with
+      | some i =>
+        let maxT := if B[i].entry.MaxTime > maxT then B[i].entry.MaxTime else maxT
+        (maxT, include_ values minT maxT)
+      | none => (maxT, values)
+    let (rd, values) := mergeLoop true B minT maxT rest rd values
+    (markAt rd f minT maxT, values)       -- `first.markRead(minT, maxT)`
+  else
+    let maxT := growMax B rd rest maxT
+    let (minT, values) := match firstOverlap B rd rest minT maxT with
+      | some i =>
+        let minT := if B[i].entry.MinTime < minT then B[i].entry.MinTime else minT
+        (minT, include_ values minT maxT)
+      | none => (minT, values)
+    let (rd, values) := mergeLoop false B minT maxT rest rd values
+    (markAt rd f minT maxT, values)
+
 /-- KeyCursor.Read…Block on `current = cur`; returns the new marks, the new `current`
     (after the `c.current = c.current[1:]; goto LOOP` steps) and the block. -/
 def readLoop {n} (asc : Bool) (B : Vector (Block V) n) :
@@ -209,29 +240,9 @@ def readLoop {n} (asc : Bool) (B : Vector (Block V) n) :
         match minTime? values, maxTime? values with
         | some lo, some hi => (markAt rd f lo hi, [f], values)
         | _, _ => (rd, [f], values)
-      | _ :: _ =>
-        -- "Use the current block time range as our overlapping window"
-        let (minT, maxT) := match minTime? values, maxTime? values with
-          | some lo, some hi => (lo, hi)
-          | _, _ => (rd[f].1, rd[f].2)
-        if asc then
-          let minT := growMin B rd rest minT
-          let (maxT, values) := match firstOverlap B rd rest minT maxT with
-            | some i =>
-              let maxT := if B[i].entry.MaxTime > maxT then B[i].entry.MaxTime else maxT
-              (maxT, include_ values minT maxT)
-            | none => (maxT, values)
-          let (rd, values) := mergeLoop true B minT maxT rest rd values
-          (markAt rd f minT maxT, f :: rest, values)
-        else
-          let maxT := growMax B rd rest maxT
-          let (minT, values) := match firstOverlap B rd rest minT maxT with
-            | some i =>
-              let minT := if B[i].entry.MinTime < minT then B[i].entry.MinTime else minT
-              (minT, include_ values minT maxT)
-            | none => (minT, values)
-          let (rd, values) := mergeLoop false B minT maxT rest rd values
-          (markAt rd f minT maxT, f :: rest, values)
+      | r :: rs =>
+        let (rd', values) := readMulti asc B rd f (r :: rs) values
+        (rd', f :: r :: rs, values)
 
 /-- KeyCursor (the fields the block reads use) -/
 structure Cursor (V : Type) (n : Nat) where
